@@ -8,14 +8,16 @@ GATES = ['pyclifford/circuit.py::CliffordGate.forward#generator_global', 'pyclif
          'pyclifford/circuit.py::CliffordGate.backward#generator_global_state', 'pyclifford/circuit.py::CliffordGate.forward#map_global_state']
 LOCAL_GATES = ['pyclifford/circuit.py::CliffordGate.forward#generator_local', 'pyclifford/circuit.py::CliffordGate.backward#generator_local',
                'pyclifford/circuit.py::CliffordGate.forward#map_local']
-MASK_LEMMAS = ['mask_index', 'inq_exists', 'inq_member']
+LOCAL_STATE = ['pyclifford/paulialg.py::PauliList.rotate_by#mask_state', 'pyclifford/circuit.py::CliffordGate.forward#generator_local_state',
+               'pyclifford/circuit.py::CliffordGate.backward#generator_local_state']
+MASK_LEMMAS = ['mask_index', 'inq_exists', 'inq_member', 'expand_sums']
 CLASS_LAYER = [PA + 'Pauli.__matmul__#Pauli', PA + 'Pauli.__neg__', PA + 'Pauli.copy', PA + 'PauliList.copy',
                PA + 'PauliList.rotate_by#nomask', PA + 'PauliList.transform_by#nomask', PA + 'PauliList.rotate_by#mask', PA + 'PauliList.transform_by#mask', ST + 'CliffordMap.copy', ST + 'CliffordMap.compose',
                ST + 'CliffordMap.to_state#r', ST + 'CliffordMap.to_state#none', ST + 'StabilizerState.copy', ST + 'StabilizerState.to_map',
                ST + 'StabilizerState.expect#list', ST + 'identity_map', ST + 'StabilizerState.measure#list', ST + 'StabilizerState.postselect',
                ST + 'StabilizerState.expect#state', ST + 'CliffordMap.inverse', ST + 'clifford_rotation_map', ST + 'zero_state', ST + 'maximally_mixed_state', 'pyclifford/circuit.py::MeasureLayer.forward', PA + 'PauliList.__neg__', PA + 'PauliList.rotate_by#state', PA + 'PauliList.transform_by#state', PA + 'PauliPolynomial.__matmul__#poly', PA + 'Pauli.__matmul__#Monomial',
                'pyclifford/circuit.py::CliffordGate.forward#generator_global', 'pyclifford/circuit.py::CliffordGate.backward#generator_global',
-               'pyclifford/circuit.py::CliffordGate.forward#map_global'] + GATES[3:] + LOCAL_GATES + \
+               'pyclifford/circuit.py::CliffordGate.forward#map_global'] + GATES[3:] + LOCAL_GATES + LOCAL_STATE + \
               [PA + '%s.__rmul__#%s' % (c, t) for c in ('Pauli', 'PauliList') for t in ('1', 'i', 'm1', 'mi')]
 
 # every kernel that currently has a discharged contract (their frame.* obligations are the C17 frame conditions)
@@ -78,7 +80,7 @@ def C05(run):
     run.deductive(keys=[U + 'stabilizer_measure', U + 'stabilizer_project', U + 'map_to_state', U + 'clifford_rotate', ST + 'CliffordMap.to_state#r',
                         ST + 'CliffordMap.to_state#none', ST + 'StabilizerState.copy', ST + 'StabilizerState.measure#list',
                         ST + 'StabilizerState.postselect', 'pyclifford/circuit.py::MeasureLayer.forward', U + 'stabilizer_postselection', PA + 'PauliList.rotate_by#state', PA + 'PauliList.transform_by#state', GATES[3], GATES[4], GATES[5],
-                        U + 'stabilizer_projection_trace'], lemmas=MEASURE_LEMMAS)
+                        U + 'stabilizer_projection_trace', U + 'mask', PA + 'PauliList.rotate_by#mask'] + LOCAL_STATE, lemmas=MEASURE_LEMMAS + MASK_LEMMAS)
     run.bounded_check('c05_histories', _b().c05_histories, Nmax=3, walks=q(run, 45, 2500), steps=q(run, 10, 30))
     run.bounded_check('c06_measure', _b().c06_measure, Nmax=2, count=q(run, 25, 400), reps=q(run, 2, 5))
     return 'other', ('bounded: random histories from every constructor with the tableau invariant and dense validity checked after every '
@@ -114,7 +116,7 @@ def C08(run):
 
 def C09(run):
     run.deductive(keys=[GATES[0], GATES[2], GATES[3], GATES[5], U + 'clifford_rotate', U + 'pauli_transform', PA + 'PauliList.rotate_by#state',
-                        PA + 'PauliList.transform_by#state', U + 'mask', PA + 'PauliList.rotate_by#mask', PA + 'PauliList.transform_by#mask'] + LOCAL_GATES,
+                        PA + 'PauliList.transform_by#state', U + 'mask', PA + 'PauliList.rotate_by#mask', PA + 'PauliList.transform_by#mask'] + LOCAL_GATES + LOCAL_STATE,
                   lemmas=MEASURE_LEMMAS + MASK_LEMMAS)
     run.bounded_check('c09_circuits', _b().c09_circuits, Nmax=3, programs=q(run, 40, 1500), maxlen=q(run, 5, 9), pack_len=q(run, 4, 5), pack_sample=q(run, 1500, 40000))
     return 'other', ('deductive (all N, all qubit tuples): a local generator / map gate acts on the compressed strings of its declared qubits exactly as '
@@ -131,9 +133,14 @@ def C10(run):
 
 
 def C11(run):
+    run.deductive(keys=[LOCAL_GATES[2], GATES[2], U + 'mask', PA + 'PauliList.transform_by#mask', PA + 'PauliList.transform_by#nomask', U + 'pauli_transform', U + 'pauli_combine'],
+                  lemmas=MASK_LEMMAS)
     run.bounded_check('c11_named', _b().c11_named, Nmax=q(run, 3, 5))
     return 'other', ('the gate tables are finite: all named gates, both CNOT orientations and C(0..23) are checked completely (exhaustive) '
-                     'against the textbook images, closure under compose/inverse, rejection of bad indices; placements N <= 3/4')
+                     'against the textbook images, closure under compose/inverse, rejection of bad indices, construction after in-place '
+                     'modification of earlier gates; "wherever they are placed in a register": deductive for all N and all qubit tuples - a '
+                     'map gate acts on the compressed strings of its qubits as its table and leaves all other columns untouched '
+                     '(CliffordGate.forward#map_local / #map_global) - plus placements N <= 3/5 natively')
 
 
 def C12(run):
